@@ -275,24 +275,57 @@ Definition judge_many (weighted tips ident : bool) (t1 : utree) (t2s : list utre
          end
   end.
 
+(** pre-used trees: the case asks the worker to index the trees, then to edit them through the
+    public API without re-indexing (see harness/worker/c08.go preUse); the observation carries the
+    trees as they are at comparison time ([t1after], [t2after], read through Neigh()/Edges() with
+    the structural audit).  The model and the oracle work on those trees: whatever stale index a
+    tree carries must not influence the record. *)
+Definition tree_after (c o : sexp) : option utree :=
+  match get "t1after" o with
+  | Some x => dec_utree x
+  | None => get_tree "t1" c
+  end.
+Definition trees_after (key : string) (c o : sexp) : option (list utree) :=
+  match get "t2after" o with
+  | Some x => dec_list dec_utree x
+  | None => x <- get key c ;; dec_list dec_utree x
+  end.
+Definition pre_tag (c : sexp) (v : verdict) : verdict :=
+  match v, get "pre1" c, get "pres" c with
+  | VOk nt tg, None, None => v
+  | VOk nt tg, _, _ => VOk nt (tg ++ ":preused")
+  | _, _, _ => v
+  end.
+
 Definition judge (c o : sexp) : verdict :=
   match get_string "hang" o with
   | Some _ => VOracle "the comparison did not deliver its records within 8 s"
   | None =>
-    match get_string "op" c, get_tree "t1" c, get_bool "tips" c, get_bool "ident" c with
+    match (match get "t1after" o with Some _ => audit_ok o | None => None end) with
+    | Some m => VBad ("pre-use edit: " ++ m)
+    | None =>
+    match get_string "op" c, tree_after c o, get_bool "tips" c, get_bool "ident" c with
     | Some op, Some t1, Some tips, Some ident =>
-      if String.eqb op "common" then
-        match get_tree "t2" c with
+      pre_tag c
+      (if String.eqb op "common" then
+        match (match get "t2after" o with
+               | Some x => (l <- dec_list dec_utree x ;; match l with [t] => Some t | _ => None end)
+               | None => get_tree "t2" c
+               end) with
         | Some t2 => judge_common tips t1 t2 o
         | None => VBad "undecodable case"
         end
-      else match x <- get "t2s" c ;; dec_list dec_utree x with
+      else match trees_after "t2s" c o with
            | None => VBad "undecodable case"
            | Some t2s =>
              if String.eqb op "compare" then judge_many false tips ident t1 t2s o
              else if String.eqb op "weighted" then judge_many true tips ident t1 t2s o
              else VBad "unknown op"
-           end
-    | _, _, _, _ => VBad "undecodable case"
+           end)
+    | _, _, _, _ => (match get_string "panic" o with
+                     | Some m => VBad ("worker: " ++ m)
+                     | None => VBad "undecodable case"
+                     end)
+    end
     end
   end.
